@@ -650,6 +650,19 @@ def install(I):
         I.write(st, mr.cell, mr.path, Agg('HashMap', m.fields + (Agg('()', (key, I.mk_int(0, mm.group(1)))),)))
         return I.ret(st, Ref(mr.cell, mr.path + (len(m.fields), 1), True))
 
+    @M(r'^<(std::collections::)?(HashMap|BTreeMap)<.*> as (std::ops::)?Index<&.*>>::index$', 'HashMap[&key] (panics when absent)')
+    def m_map_index(I, st, f, args, fr):
+        r = args[0]
+        m = norm_coll(I.read(st, r.cell, r.path), 'HashMap')
+        key = rd(I, st, args[1])
+        outs = []
+        for s2, idx in map_find(I, st, m, key):
+            if idx is None:
+                outs.extend(panic(I, s2, 'key not found in map index'))
+            else:
+                outs.append(Outcome(s2, 'ret', Ref(r.cell, r.path + (idx, 1))))
+        return outs
+
     @M(r'^HashMap::<.*>::contains_key(::<.*>)?$|^BTreeMap::<.*>::contains_key(::<.*>)?$|^HashSet::<.*>::contains(::<.*>)?$', 'contains_key')
     def m_map_contains(I, st, f, args, fr):
         r = args[0]
